@@ -112,7 +112,7 @@ type rStep struct {
 }
 
 type rProg struct {
-	Optional bool // the remote include is marked optional: true
+	Optional bool   // the remote include is marked optional: true
 	Scheme   string // https, http
 	Insecure bool
 	Steps    []rStep
@@ -244,9 +244,9 @@ func runR(t *testing.T, ch *vs.Choices, prop, tier string, render bool) *vs.RunO
 			srv := &rServer{sim: sim, state: "up", version: 1}
 			http.DefaultClient.Transport = srv
 			// model
-			approved := 0        // version whose checksum the user last approved (0 = none)
-			cacheGood := false   // a copy has been downloaded and approved and nothing has damaged the cache since
-			cacheVersion := 0    // version of that copy
+			approved := 0      // version whose checksum the user last approved (0 = none)
+			cacheGood := false // a copy has been downloaded and approved and nothing has damaged the cache since
+			cacheVersion := 0  // version of that copy
 			cacheDir := filepath.Join(dir, ".task", "remote")
 			for si, s := range p.Steps {
 				desc := fmt.Sprintf("step %d: %s", si, s.String())
